@@ -18,6 +18,7 @@ RULE = ('config texts mixing known and unknown targets (flat, block, scoped, mod
         'blocks of unknown targets holding unknown references, %macro references to macros holding placeholders; placeholders are used through '
         'c15f / c15cons under several scopes and through macros, the error must name an unknown selector that is reachable (at finalize: and a binding '
         'holding it); dynamic registration: list/tuple/set with partial lists (unlisted -> error), placeholders checked in the store, on use and at '
+        'Late-known names: the too-early statement is flat or a block, the later ones flat, with and without a scope. '
         'finalize. distinct = (statement kinds, skip form, which unknowns listed, registration mode, entry point)')
 TIERS = {
     'quick': {'workers': 8, 'cases': 1800, 'timeout': 600},
